@@ -5,12 +5,17 @@ package main
 import (
 	"bufio"
 	"bytes"
+	"compress/flate"
+	"context"
 	"io"
 	"io/ioutil"
+	"net"
 	"strconv"
 	"strings"
+	"time"
 
 	"github.com/gobwas/ws"
+	"github.com/gobwas/ws/wsflate"
 	"github.com/gobwas/ws/wsutil"
 )
 
@@ -48,6 +53,33 @@ func init() {
 	r7Wrap("C07", r7C07)
 	r7Wrap("C04", r7C07)
 	r7Wrap("C19", r7C19Close)
+	r7Wrap("C09", r7H09W)
+	replayers["H09W"] = func(c *ctx, in []string) {
+		h09Wrap = true
+		defer func() { h09Wrap = false }()
+		replayers["H09"](c, in)
+	}
+	r7Wrap("C09", r7Statuses)
+	r7Wrap("C11", r7ManyHeaders)
+	r7Wrap("C11", r7DBUF)
+	r7Wrap("C16", r7DBUF)
+	replayers["DBUF"] = func(c *ctx, in []string) {
+		a, _ := strconv.Atoi(in[0])
+		b, _ := strconv.Atoi(in[1])
+		d, _ := strconv.Atoi(in[2])
+		dbuf(c, a, b, d)
+	}
+	r7Wrap("C12", r7C12Close)
+	r7Wrap("C14", r7WindowBits)
+	r7Wrap("C15", r7WindowBits)
+	r7Wrap("C16", r7HSWLong)
+	r7Wrap("C19", c19D)
+	r7Wrap("C10", c19D)
+	replayers["C19D"] = func(c *ctx, in []string) { c19D(c) }
+	// r7-C17b: a response accepting TWO parameterised extensions in one header line (and three, and repeated names)
+	respExtLines = append(respExtLines,
+		[]string{"foo; a=1; mode=fast, bar; x=22; y=xyz"}, []string{"bar; x=2; y, foo; a=1"},
+		[]string{"foo; alpha=1, bar; x=2, foo; beta=3"}, []string{"foo; a=1; b=2; c=3, bar; longer-parameter-name=longer-value"})
 }
 
 // r7-C01: one long-lived Reader decoding frames of EVERY length form one after the other, in every order: a scratch
@@ -370,4 +402,223 @@ func r7C19Close(c *ctx) {
 			c17Close(c, "closedata", client, pl)
 		}
 	}
+}
+
+// ---------------------------------------------------------------------------------------------------------------
+// batch 2
+
+// r7-C09: the HTTP upgraders behind a ResponseWriter that reaches its Hijacker through Unwrap() (H09W, judged as H09)
+func r7H09W(c *ctx) {
+	h09Wrap = true
+	defer func() { h09Wrap = false }()
+	for _, v := range [][2]int{{1, 1}, {1, 0}, {2, 0}} {
+		h09(c, "up", "GET", v[0], v[1], "example.com", mandMap(""), nil, nil, nil, nil)
+		h09(c, "ws", "GET", v[0], v[1], "example.com", mandMap(""), nil, nil, nil, nil)
+	}
+	h09(c, "up", "POST", 1, 1, "example.com", mandMap(""), nil, nil, nil, nil)
+	h09(c, "up", "GET", 1, 1, "h", mandMap("Upgrade"), nil, nil, nil, nil)
+	sel := []string{"chat"}
+	h09(c, "up", "GET", 1, 1, "h", append(mandMap(""), hmEntry{"Sec-Websocket-Protocol", []string{"chat, superchat"}}), []hmEntry{{"X-Extra", []string{"1", "2"}}}, &sel, nil, nil)
+}
+
+// r7-C09b: rejections with EVERY status one after the other in one process, in two orders (a cache of status lines keyed
+// by a truncated code answers a later rejection with an earlier one's status)
+func r7Statuses(c *ctx) {
+	r := baseReq()
+	r.lines = canonLines("")
+	req := r.bytes()
+	codes := []int{}
+	for k := 300; k < 600; k++ {
+		codes = append(codes, k)
+	}
+	order2 := []int{}
+	for k := 0; k < 300; k++ {
+		order2 = append(order2, 300+(k*131)%300)
+	}
+	if !c.thor {
+		codes = []int{301, 429, 428, 300, 403, 531, 404, 532, 500, 372, 401, 529, 417, 545, 451, 579}
+		order2 = []int{429, 301, 300, 428, 531, 403}
+	}
+	for _, list := range [][]int{codes, order2} {
+		for _, code := range list {
+			rj := rejSpec{code: code, reason: "status " + strconv.Itoa(code)}
+			u09(c, "up", 0, 0, "eof", [][]byte{req}, ucfg{onreq: []kvRej{{[]byte("/ws"), rj}}})
+		}
+	}
+}
+
+// r7-C11: many header lines on either side (a peer that counts lines must count the other's too)
+func r7ManyHeaders(c *ctx) {
+	for _, n := range []int{28, 31, 32, 33, 40, 100, 300} {
+		var b strings.Builder
+		for i := 0; i < n; i++ {
+			b.WriteString("X-H" + strconv.Itoa(i) + ": v" + strconv.Itoa(i) + "\r\n")
+		}
+		for side := 0; side < 2; side++ {
+			dc := dcfg{protocols: []string{"chat"}}
+			uc := ucfg{proto: &[]string{"chat"}}
+			if side == 0 {
+				uc.hdr = []byte(b.String())
+			} else {
+				dc.hdr = []byte(b.String())
+			}
+			a11(c, 0, 0, 0, 0, randSizes(c), randSizes(c), "ws://example.com/ws", dc, uc, []byte("\x81\x01x"))
+		}
+	}
+}
+
+// r7-C11b: DebugUpgrader over a conn whose k-th Write is refused: OnResponse must report the bytes the conn ACCEPTED
+// (what was exchanged), for responses that leave in one and in several writes.
+//
+//	DBUF <wbuf> <k> <hdrlen> -> <plain class> <debug class> <accepted bytes> <OnResponse bytes> <calls>
+func dbuf(c *ctx, wbuf, k, hdrlen int) {
+	r := baseReq()
+	r.lines = canonLines("")
+	req := r.bytes()
+	hdr := []byte("X-Long: " + strings.Repeat("h", hdrlen) + "\r\n")
+	mkU := func() ws.Upgrader { return ws.Upgrader{WriteBufferSize: wbuf, Header: ws.HandshakeHeaderBytes(hdr)} }
+	plainDst := &failAtWriter{k: k}
+	_, perr := mkU().Upgrade(struct {
+		io.Reader
+		io.Writer
+	}{bytes.NewReader(req), plainDst})
+	dst := &failAtWriter{k: k}
+	var got []byte
+	n := 0
+	d := wsutil.DebugUpgrader{Upgrader: mkU(), OnResponse: func(p []byte) { n++; got = append([]byte(nil), p...) }}
+	cls := "ok"
+	func() {
+		defer func() {
+			if recover() != nil {
+				cls = "panic"
+			}
+		}()
+		_, err := d.Upgrade(struct {
+			io.Reader
+			io.Writer
+		}{bytes.NewReader(req), dst})
+		cls = upgradeErrClass(err)
+	}()
+	c.emit("DBUF %d %d %d -> %s %s %s %s %d", wbuf, k, hdrlen, upgradeErrClass(perr), cls, hx(dst.got), hx(got), n)
+}
+
+func r7DBUF(c *ctx) {
+	for _, wbuf := range []int{0, 64, 256} {
+		for _, hl := range []int{0, 300, 1500} {
+			for k := 0; k < 5; k++ {
+				dbuf(c, wbuf, k, hl)
+			}
+		}
+	}
+}
+
+// r7-C12: messages the library's own writer ends with Close() and no Flush() before it (the last bytes reach the
+// decompression reader together with the end of the DEFLATE stream), and written in several pieces
+func r7C12Close(c *ctx) {
+	for i, n := range []int{0, 1, 10, 100, 1000, 5000, 40000, 70000} {
+		if !c.thor && n > 5000 && i%2 == 0 {
+			continue
+		}
+		p := patBytes(n, 3)
+		if i%2 == 1 {
+			p = bytes.Repeat([]byte("compressible text "), n/18+1)[:n]
+		}
+		for _, lv := range []int{-2, 1, 9} {
+			for _, pieces := range []int{1, 3} {
+				var b bytes.Buffer
+				w := wsflate.NewWriter(&b, func(w io.Writer) wsflate.Compressor { f, _ := flate.NewWriter(w, lv); return f })
+				for k := 0; k < pieces; k++ {
+					w.Write(p[len(p)*k/pieces : len(p)*(k+1)/pieces])
+				}
+				if w.Close() != nil {
+					continue
+				}
+				msg := append([]byte(nil), b.Bytes()...)
+				enc := "goclose" + strconv.Itoa(lv) + "p" + strconv.Itoa(pieces)
+				for _, ch := range []string{"w", "1", "r" + strconv.Itoa(n%1000)} {
+					if n > 5000 && ch == "1" {
+						continue
+					}
+					for br := 0; br < 2; br++ {
+						c12R(c, "reader", "std", ch, br == 1, enc, p, msg)
+					}
+				}
+				c12R(c, "helper", "std", "w", true, enc, p, msg)
+				c12R(c, "frame", "std", "w", true, enc, p, msg)
+			}
+		}
+	}
+}
+
+// r7-C15b: every decimal window-bits value 0..300 (and odd numerals) for both window parameters through
+// Parameters.Parse and Extension.Negotiate
+func r7WindowBits(c *ctx) {
+	vals := []string{"", "00", "008", "8.0", "+8", "-1", "0x0f", "1e1", " 9", "9 ", "９", "4294967304", "18446744073709551624"}
+	for k := 0; k <= 300; k++ {
+		vals = append(vals, strconv.Itoa(k))
+	}
+	for _, v := range vals {
+		fz(c, "pp", []byte("permessage-deflate; server_max_window_bits="+v))
+		fz(c, "pp", []byte("permessage-deflate; client_max_window_bits="+v))
+		fz(c, "pp", []byte("permessage-deflate; client_max_window_bits="+v+"; server_max_window_bits="+v))
+	}
+}
+
+// r7-C16b: the destination refuses its k-th write while an Upgrader writes a response with a LONG extra header (bufio
+// sends what does not fit its buffer directly; an error there must still be reported)
+func r7HSWLong(c *ctx) {
+	for _, wbuf := range []int{0, 64, 4096} {
+		for _, hl := range []int{600, 1100, 5000} {
+			for k := 0; k < 5; k++ {
+				hsWriteFail(c, "uphdr"+strconv.Itoa(hl), wbuf, k)
+			}
+		}
+	}
+}
+
+// r7-C19b: sessions that use the library's DEFAULT net dialer (NetDial == nil) one after the other against a loopback
+// listener: one with a tiny Timeout (it may fail), then one without (it must succeed, as it does alone)
+//
+//	C19D -> <listening 0|1> <A class> <B class> <B alone class> <C class>
+func c19D(c *ctx) {
+	ln, err := net.Listen("tcp", "127.0.0.1:0")
+	if err != nil {
+		c.emit("C19D x -> 0 - - - -")
+		return
+	}
+	defer ln.Close()
+	go func() {
+		for {
+			conn, err := ln.Accept()
+			if err != nil {
+				return
+			}
+			go func(conn net.Conn) {
+				defer conn.Close()
+				conn.SetDeadline(time.Now().Add(5 * time.Second))
+				ws.Upgrader{}.Upgrade(conn)
+			}(conn)
+		}
+	}()
+	url := "ws://" + ln.Addr().String() + "/"
+	one := func(timeout time.Duration) string {
+		ctx, cancel := context.WithTimeout(context.Background(), 5*time.Second)
+		defer cancel()
+		conn, br, _, err := ws.Dialer{Timeout: timeout}.Dial(ctx, url)
+		if br != nil {
+			ws.PutReader(br)
+		}
+		if conn != nil {
+			conn.Close()
+		}
+		if err != nil {
+			return "err"
+		}
+		return "ok"
+	}
+	alone := one(0)
+	a := one(time.Nanosecond)
+	b := one(0)
+	cc := one(3 * time.Second)
+	c.emit("C19D x -> 1 %s %s %s %s", a, b, alone, cc)
 }
